@@ -319,7 +319,8 @@ impl Check for C20 {
     }
     fn generate(&self, seed: u64, index: u64) -> J {
         let mut rng = Rng::new(run_seed(seed, ID, index));
-        if rng.chance(1, 150) {
+        // (at fixed indices, so that a batch cut short by its time cap has still run some)
+        if index % 150 == 7 {
             return generate_pty(&mut rng);
         }
         let history = *rng.pick(&HISTORIES);
@@ -793,6 +794,9 @@ fn generate_pty(rng: &mut Rng) -> J {
     scenario.put("pty", true);
     scenario.put("pty_minimal", rng.chance(2, 3));
     scenario.put("pty_history_file", !history.is_empty() || rng.coin());
+    // Window width (0: the terminal reports no size) and typing ahead
+    scenario.put("pty_cols", *rng.pick(&[0i64, 12, 20, 40, 80, 200]));
+    scenario.put("pty_burst", format!("{:x}", if rng.coin() { rng.next_u64() } else { 0 }));
     scenario
 }
 
@@ -819,6 +823,7 @@ fn phase4(history: &[String], keys: &[Key2], scenario: &J, report: &mut Report, 
     all.push(Key2::Enter);
 
     // Reference: state before every key (what each redraw shows), chunks, final history
+    let burst = u64::from_str_radix(scenario.get_str("pty_burst").unwrap_or("0"), 16).unwrap_or(0);
     let mut model = Editor::new(history.to_vec());
     model.begin_line();
     let mut expected_redraws: Vec<(String, usize)> = Vec::new();
@@ -837,9 +842,12 @@ fn phase4(history: &[String], keys: &[Key2], scenario: &J, report: &mut Report, 
         bytes.extend_from_slice(&key_bytes(key));
         let submitted = model.key(key, None);
         if matches!(key, Key2::Enter) {
+            // The final `exit` line is always typed on its own
+            let k = chunks.len() as u32;
             chunks.push(Chunk {
                 bytes: std::mem::take(&mut bytes),
                 submits: submitted.is_some(),
+                with_next: burst >> (k % 60) & 1 == 1,
             });
         }
         if let Some(line) = submitted {
@@ -864,12 +872,26 @@ fn phase4(history: &[String], keys: &[Key2], scenario: &J, report: &mut Report, 
         return;
     }
     let minimal = scenario.get_bool("pty_minimal").unwrap_or(true);
-    let mut run = run_pty(&scratch, &asm, minimal, if with_file { Some(&before) } else { None }, &chunks);
+    let cols = scenario.get_int("pty_cols").unwrap_or(200) as u16;
+    // The last two chunks (the line being cleared, then `exit`) are never merged with others
+    let n_chunks = chunks.len();
+    for (i, c) in chunks.iter_mut().enumerate() {
+        if i + 2 >= n_chunks {
+            c.with_next = false;
+        }
+    }
+    if chunks.iter().any(|c| c.with_next) {
+        report.hit("fault:typed_ahead_in_one_write");
+    }
+    if cols > 0 && cols < 40 {
+        report.hit("fault:narrow_terminal_window");
+    }
+    let mut run = run_pty(&scratch, &asm, minimal, cols, if with_file { Some(&before) } else { None }, &chunks);
     if run.stalled.is_some() {
         // A stall is only a verdict if it repeats: the guard is the one place where the load of
         // the machine could show
         report.hit("probe:pty_session_repeated_after_stall");
-        run = run_pty(&scratch, &asm, minimal, if with_file { Some(&before) } else { None }, &chunks);
+        run = run_pty(&scratch, &asm, minimal, cols, if with_file { Some(&before) } else { None }, &chunks);
     }
     report.hit("fault:real_pseudo_terminal_session");
     report.count("processes", 1);
